@@ -240,10 +240,11 @@ func VerifC10Decoder() {
 		n := verifCase("units", 1, 3)
 		pl := []byte{verifU8("stap.nri")&3<<5 | 24}
 		for k := 0; k < n; k++ {
-			u := verifNAL{hdr: verifU8("hdr") & 0x7F, body: verifBytes("ubody", verifCase("usize", 1, 3)-1)}
+			// unit sizes on both sides of the 255/256 boundary of the 16-bit size field
+			u := verifNAL{hdr: verifU8("hdr") & 0x7F, body: verifBytes("ubody", verifPick("usize", []int{1, 2, 3, 256, 300, 255}[:verifBound("C10.usizes")])-1)}
 			verifAssume(u.typ() >= 1)
 			verifAssume(u.typ() <= 23)
-			pl = append(pl, 0, uint8(u.size()))
+			pl = append(pl, uint8(u.size()>>8), uint8(u.size()))
 			pl = append(pl, u.raw()...)
 			want = verifFrame(want, dep.IsAVC, u)
 		}
